@@ -126,7 +126,9 @@ pub fn run_scenario(scn: &Scn, seen: &mut Seen) -> Outcome {
     verif::set_abort_spin(false);
     verif::set_failpoints(&[], 0);
     verif::start_recording();
-    let cfg = ServerCfg { workers: scn.workers, limit: 64, listeners: vec![LKind::Tcp; scn.listeners], rt: scn.rt, shutdown_timeout: 1, backlog: 128 };
+    let cfg = ServerCfg { workers: scn.workers, limit: 64, // mostly Unix-domain listeners: the readiness protocol does not depend on the transport, and thousands of short
+        // TCP scenarios per minute leave more sockets in TIME_WAIT than there are ephemeral ports
+        listeners: (0..scn.listeners).map(|i| if (scn.seed >> (5 * i)) % 32 == 0 { LKind::Tcp } else { LKind::Uds }).collect(), rt: scn.rt, shutdown_timeout: 1, backlog: 128 };
     let mut run = match engine::start(&cfg, |ctls| {
         for c in ctls {
             c.inner.lock().unwrap().keep_wakers = true;
